@@ -76,7 +76,7 @@ def gen_case(rng, idx):
 
 def generate(rng, tier):
     cases, idx = [], 0
-    for _ in range(dict(quick=800, thorough=20000, search=8000)[tier]):
+    for _ in range(dict(quick=800, thorough=150000, search=8000)[tier]):
         cases.append(gen_case(rng.fork(), idx)); idx += 1
     # systematic: layouts x local positions x all levels after every sequence of prior selections
     shapes = [[1], [2], [3], [4], [1, 1], [2, 1], [2, 2], [3, 1], [1, 1, 1], [2, 2, 2], [3, 2, 1], [1, 1, 1, 1], [2, 2, 1, 1], [4, 4, 4, 4]]
